@@ -123,6 +123,7 @@ def _dump(payload, sub):
             ds = c = None
         gc.collect()
         extra['mid_table'] = read_table(os.path.abspath('db.sqlite'), fields)
+        extra['mid_pk'] = read_table_pk(os.path.abspath('db.sqlite'))
         ds = flow.datastream()
     else:
         ds = DF.Flow(DF.load((desc, [iter(rows)]), strip=False), d).datastream()
@@ -158,6 +159,20 @@ def read_table(path, fields):
         con.close()
     types = {f['name']: f['type'] for f in fields}
     return [{c: norm(v, types.get(c)) for c, v in zip(cols, row)} for row in rows]
+
+
+def read_table_pk(path):
+    """primary-key columns of the table as the database has it (None: no table, []: no primary key)"""
+    if not os.path.exists(path):
+        return None
+    con = sqlite3.connect(path)
+    try:
+        info = list(con.execute('PRAGMA table_info(tbl)'))
+    finally:
+        con.close()
+    if not info:
+        return None
+    return [r[1] for r in sorted((r for r in info if r[5]), key=lambda r: r[5])]
 
 
 class C20(Prop):
@@ -305,13 +320,12 @@ class C20(Prop):
                 # the property says nothing about the table after a failed dump: the model continues from what the failed attempt left
                 mid = v0.get('mid_table')
                 if mid is not None and model is None:
-                    table_pk = pk
                     ctx.probe('failed-attempt-created-the-table')
                 if mid is not None and model is not None and sorted(json.dumps(x, sort_keys=True) for x in mid) != sorted(json.dumps(x, sort_keys=True) for x in model):
                     ctx.probe('failed-attempt-changed-the-table')
-                    if mode == 'rewrite':
-                        table_pk = pk
                 model = [dict(x) for x in mid] if mid is not None else None
+                # ... including the key constraint the table now has (a failed rewrite may or may not have re-created it)
+                table_pk = (v0.get('mid_pk') or None) if mid is not None else None
             # ---- model
             expect_error = False
             if mode == 'rewrite' or model is None:
@@ -355,8 +369,8 @@ class C20(Prop):
                     ctx.violation('unexpected-error', 'no-error', 'the model predicts a primary-key conflict but the dump succeeded; %s' % desc)
                 # table unchanged (single transaction) - the property says nothing about the state after a failed dump; re-synchronise from the table
                 model = [dict(x) for x in got_table] if got_table is not None else None
-                if model is not None and table_pk is None:
-                    table_pk = table_pk_new
+                # rows and key constraint as the database has them now (a rejected rewrite may have re-created the table first)
+                table_pk = (read_table_pk(db) or None) if model is not None else None
                 continue
             if res['status'] != 'ok':
                 cause = res['exc'].get('cause') or res['exc']
